@@ -37,12 +37,13 @@ SATS = {
         "Relative_Cardinality_Sat": (True, False), "Relative_Cost_Sat": (True, True),
         "Relative_Cost_Approx_Normaliser_Sat": (True, False),
         "Additive_Cardinal_Sat": (True, False), "Additive_Cardinal_Relative_Sat": (True, True),
-        "CC_Sat": (False, False),
+        "CC_Sat": (False, False), "Effort_Sat": (True, False),
     },
     "ordinal": {
         "Cost_Sat": (True, False), "Cardinality_Sat": (True, False),
         "Relative_Cardinality_Sat": (True, False), "Relative_Cost_Sat": (True, True),
         "Relative_Cost_Approx_Normaliser_Sat": (True, False), "Additive_Borda_Sat": (True, False),
+        "Effort_Sat": (True, False),
     },
 }
 SATS["cumulative"] = dict(SATS["cardinal"])
